@@ -24,7 +24,12 @@ Modes == {"required", "optional", "default"}
 \* HTTP transport envelope only: "treq" = optional in the payload / result type (a pointer field), made Required inside the
 \* HTTP mapping alone (Params(func(){ Required(..) }) / Headers(func(){ Required(..) })): the transport demands what the type
 \* leaves open.  (Modes itself is shared with the gRPC envelope and stays as it is.)
-HModes == Modes \cup {"treq"}
+\* ... and where a Default is DECLARED when the attribute's type is an alias (Type("Score", Int, func(){ Default(10) })): on the
+\* attribute ("default"), on the alias type only ("tdefault"), on both ("bdefault": the attribute's default wins).  The three
+\* are one promise - an unset attribute arrives as the declared default (DefaultOf) - and must behave alike.
+DefModes == {"default", "tdefault", "bdefault"}
+HasDefault(a) == a.mode \in DefModes
+HModes == Modes \cup {"treq", "tdefault", "bdefault"}
 MustBePresent(a) == a.mode \in {"required", "treq"}
 Rules == {"none", "min", "max", "xmin", "xmax", "minlen", "maxlen", "enum", "pattern", "format", "cminlen", "cmaxlen",
           \* two rules on one attribute: both inclusive / both exclusive bounds, both lengths
@@ -42,7 +47,9 @@ Nests == {"direct", "elem", "mapkey", "mapval", "alias", "nested",
           "mapparams",
           \* a NAMED collection: the attribute's type is a user type that IS a list / a map (Type("M1A1List", ArrayOf(K))) - it must
           \* behave exactly like the inline ArrayOf / MapOf wherever that is allowed
-          "alias_elem", "alias_mapval"}
+          "alias_elem", "alias_mapval",
+          \* a user type holding an attribute of alias type that carries a default (the mode says where it is declared)
+          "nested_alias"}
 NamedCollNests == {"alias_elem", "alias_mapval"}
 Whole == {"whole", "whole_elem", "whole_mapval"}
 Deep == {"nested_mapkey", "nested_elem", "elem_nested", "mapval_nested", "mapkey_alias"}
@@ -75,19 +82,22 @@ WFAttr(a) ==
                                     /\ a.mode \in {"required", "optional"})
   \* map-valued query parameters: qa1[key]=value; the whole payload as the query string (MapParams()): key=value
   /\ (a.nest \in QueryMapNests => a.loc \in {"query", "body"} /\ (a.nest \in {"mapval_elem", "mapparams"} => a.loc = "query" /\ a.kind \notin WideKinds \cup {"any"}))
-  /\ (a.nest \in {"nested"} \cup Deep => a.loc = "body")
+  /\ (a.nest \in {"nested", "nested_alias"} \cup Deep => a.loc = "body")
+  /\ (a.nest = "nested_alias" => a.mode \in DefModes /\ a.kind \notin WideKinds /\ a.rule \in {"none", "min", "pattern"})
+  \* (a default declared on the alias type: alias nestings only; a few rules - with and without a validation on the alias)
+  /\ (a.mode \in {"tdefault", "bdefault"} => a.nest \in {"alias", "nested_alias"} /\ a.rule \in {"none", "min", "minlen", "pattern", "enum"})
   /\ (a.mode = "treq" => a.loc \in {"query", "header"} /\ a.nest \in {"direct", "alias"})
   /\ (a.nest \in {"mapkey", "nested_mapkey", "mapkey_alias"} => a.kind \in {"string", "int"})
   /\ (a.kind = "bytes" => a.nest \in {"direct", "whole"} /\ (a.nest = "whole" => a.loc = "body") /\ a.rule \in {"none", "minlen", "maxlen", "lenrange"})
   /\ (a.kind = "bool" => a.rule = "none")
-  /\ (a.kind = "any" => a.loc = "body" /\ a.nest \in {"direct", "elem", "mapval", "nested"} /\ a.rule = "none" /\ a.mode # "default")
+  /\ (a.kind = "any" => a.loc = "body" /\ a.nest \in {"direct", "elem", "mapval", "nested"} /\ a.rule = "none" /\ ~HasDefault(a))
   /\ (a.rule \in {"min", "max", "xmin", "xmax", "range", "xrange"} => a.kind \in NumKinds)
   /\ (a.rule \in {"minlen", "maxlen", "lenrange"} => a.kind \in {"string", "bytes"})
   /\ (a.rule \in {"pattern", "format"} => a.kind = "string")
   /\ (a.rule = "enum" => a.kind \in {"int", "string"})
   /\ (a.rule \in {"cminlen", "cmaxlen"} => a.nest \in {"elem", "mapval", "whole_elem", "whole_mapval"} \cup NamedCollNests)
   \* a Default on a list / map attribute (DefaultedContainerNests): in bodies only
-  /\ (a.mode = "default" => (a.nest \in {"direct", "alias"} \/ (a.nest \in DefaultedContainerNests /\ a.loc = "body")
+  /\ (HasDefault(a) => (a.nest \in {"direct", "alias", "nested_alias"} \/ (a.nest \in DefaultedContainerNests /\ a.loc = "body")
                             \/ (a.nest \in {"elem", "alias_elem"} /\ a.loc \in {"query", "header"})) /\ a.kind # "bytes")       \* (a Default on a list parameter / header)
   /\ (a.nest \in Whole => a.mode = "required" /\ a.kind \notin {"any"} /\ a.loc \in {"body", "query", "header", "path"})
   /\ (a.nest \in {"whole_elem", "whole_mapval"} /\ a.loc # "body" => (a.nest = "whole_elem" /\ a.loc \in {"query", "header"}) \/ (a.nest = "whole_mapval" /\ a.loc = "query"))
@@ -128,7 +138,7 @@ ElemPick(leaf) == (IF \E w \in leaf : w.n = 3 /\ w.s = "plain" THEN {w \in leaf 
 \* values an attribute can take: the leaf values, with a container size where the leaf is nested
 ValsOf(a) ==
   LET leaf == {v \in LeafVals(a.kind) : ShapeFits(v)} IN
-  IF a.nest \in {"direct", "alias", "nested", "whole"} THEN leaf
+  IF a.nest \in {"direct", "alias", "nested", "nested_alias", "whole"} THEN leaf
   ELSE IF a.nest \in Deep THEN {[v EXCEPT !.cn = c] : v \in leaf, c \in (IF a.nest \in {"nested_mapkey", "mapkey_alias"} THEN {1} ELSE {1, 2})}
   ELSE IF a.rule \in {"cminlen", "cmaxlen"}
        THEN {[v EXCEPT !.cn = c] : v \in ElemPick(leaf), c \in {0, Lo - 1, Lo, Hi, Hi + 1}}
@@ -136,7 +146,7 @@ ValsOf(a) ==
 
 \* can the caller leave the attribute unset?  (Go: pointer field, nil slice or nil map)
 CanBeAbsent(a) == a.mode \in {"optional", "treq"} \/ (a.mode = "required" /\ a.nest \in {"elem", "mapkey", "mapval", "mapval_elem", "mapparams", "nested"} \cup Deep \cup NamedCollNests) \/ (a.mode = "required" /\ a.kind = "bytes")
-                  \/ (a.mode = "default" /\ a.nest \in DefaultedContainerNests)       \* (a nil slice / map: the default stands in)
+                  \/ (HasDefault(a) /\ a.nest \in DefaultedContainerNests)       \* (a nil slice / map: the default stands in)
 \* an empty string cannot be a path segment, and neither can "nothing": the envelope does not send one (the caller of a
 \* method with a path parameter supplies it, whatever the payload type says)
 ParamBytesVals(a) == IF a.kind = "bytes" /\ a.loc # "body"
@@ -145,7 +155,7 @@ ParamBytesVals(a) == IF a.kind = "bytes" /\ a.loc # "body"
                       ELSE {}
 PayloadVals(a) == {v \in ValsOf(a) \cup ParamBytesVals(a) : ~(a.loc = "path" /\ (v.s = "empty" \/ (v.cls = "bytes" /\ v.n = 0))) /\ (v.s = "huge" => a.loc = "body")} \cup (IF CanBeAbsent(a) /\ a.nest \notin Whole /\ a.loc # "path" THEN {Absent} ELSE {})
                   \* a defaulted list / map that the caller sets to EMPTY on purpose (not nil): whatever the rule
-                  \cup (IF a.mode = "default" /\ a.nest \in DefaultedContainerNests THEN {V(a.kind, 3, "plain", 0)} ELSE {})
+                  \cup (IF HasDefault(a) /\ a.nest \in DefaultedContainerNests THEN {V(a.kind, 3, "plain", 0)} ELSE {})
 \* what no generated encoder writes but any peer can send: the (last) object of a nested user type lacks its required inner
 \* attribute (s = "nofield"; cn entries, the last one broken).  HTTPTransport enumerates these on top of PayloadVals.
 NoFieldNests == {"nested", "elem_nested", "mapval_nested"}
@@ -195,7 +205,7 @@ RuleErr(a) ==
 
 \* does a value satisfy the attribute?  Constraints apply to present values; required means present.
 \* A container with no entries has no leaf to check (cn = 0).
-LeafChecked(a, v) == a.rule \in {"cminlen", "cmaxlen"} \/ a.nest \in {"direct", "alias", "nested", "whole"} \/ v.cn >= 1
+LeafChecked(a, v) == a.rule \in {"cminlen", "cmaxlen"} \/ a.nest \in {"direct", "alias", "nested", "nested_alias", "whole"} \/ v.cn >= 1
 ValidAttr(a, v) == IF v = Absent THEN ~MustBePresent(a) ELSE IF v.s = "nofield" THEN FALSE ELSE (LeafChecked(a, v) => RuleOK(a, v))
 ViolationOf(a, v) == IF v = Absent \/ v.s = "nofield" THEN "missing_field" ELSE RuleErr(a)
 \* every attribute shape of the envelope has at least one present value (a shape that could only be left unset would
